@@ -13,6 +13,7 @@ type VerifWriterCounters struct {
 	BufIdx, BitLen                      int
 	Bits                                uint64
 	Window                              int
+	Blocks                              int // huff: blocks whose encoding has started
 }
 
 // VerifState returns the counters of w.
@@ -28,6 +29,7 @@ func (w *Writer) VerifState() (c VerifWriterCounters) {
 	case *huffmanOnly:
 		c.Kind = "huff"
 		c.Offset = lc.offset
+		c.Blocks = verifHuffCount(lc)
 		c.BufIdx, c.BitLen, c.Bits = lc.buf.idx, lc.buf.bitLen, lc.buf.bits
 	default:
 		c.Kind = "std"
